@@ -213,9 +213,10 @@ theorem missing_parent_ref_reported (isName : Char → Bool) (consts : Repl) (re
     reifyEntry isName consts reg refs e = .ok ⟨e, [.failedToInheritRef], refs⟩ := by
   simp [reifyEntry, topFuel, resolve, hp, hf, hr]
 
-/-- two successfully resolved entries of one file with the same ref: RefAlreadyExists on the file -/
+/-- two successfully resolved entries of one file with the same (non-empty) ref: RefAlreadyExists on the file. Entries
+WITHOUT a ref do not share one: `refless_not_duplicates`. -/
 theorem duplicate_ref_reported (isName : Char → Bool) (consts : Repl) (reg : Registry) (refs : List Text)
-    (e1 e2 : Entry) (rest out : List Entry) (ds : List Diag) (res1 res2 : Resolved) (r : Text)
+    (e1 e2 : Entry) (rest out : List Entry) (ds : List Diag) (res1 res2 : Resolved) (r : Text) (hne : r ≠ [])
     (h : reifyFile isName consts reg refs (e1 :: rest) = .ok (out, ds))
     (h1 : resolve reg (topFuel reg) [] e1 = .ok res1) (m1 : res1.merged = true) (r1 : res1.entry.ref = some r)
     (hmem : e2 ∈ rest)
@@ -235,8 +236,20 @@ theorem duplicate_ref_reported (isName : Char → Bool) (consts : Repl) (reg : R
       simp only at h
       cases h
       apply List.mem_append_right
-      exact reifyFile_dup isName consts reg rest r0.refs o' d ho e2 res2 r hmem h2 m2 r2
+      exact reifyFile_dup isName consts reg rest r0.refs o' d ho e2 res2 r hmem h2 m2 r2 hne
         (reifyEntry_adds_ref isName consts reg refs e1 res1 r r0 h1 m1 r1 hr)
+
+/-- an entry without ref is never reported as a duplicate, whatever refs the file has seen (the code before the repair
+compared the empty ref like any other and reported `ref  already exists` for the second ref-less step of a file) -/
+theorem refless_not_duplicates (isName : Char → Bool) (consts : Repl) (refs : List Text) (m : Entry) (ds : List Diag)
+    (hr : m.ref = some []) (hd : Diag.refAlreadyExists [] ∉ ds)
+    (hs : Diag.refAlreadyExists [] ∉ (substFields isName (envOf consts m.replacement) m.fields).2) :
+    Diag.refAlreadyExists [] ∉ (finishTop isName consts refs m ds).diags := by
+  have h : (finishTop isName consts refs m ds).diags =
+      ds ++ dupDiag refs [] ++ (substFields isName (envOf consts m.replacement) m.fields).2 := by
+    simp [finishTop, hr, wantsSubst]
+  rw [h]
+  simp [dupDiag, hd, hs]
 
 /-- the reified value of every entry of a file is the value it has when reified alone: failures,
 duplicate refs and diagnostics of the other entries never change it, and no entry is dropped -/
